@@ -6,8 +6,8 @@ CONSTANTS
   Datasets = {"d1"}
   NRetries = 1
   ProbeRetries = 3
-  MaxLen = 2
-  MaxFaults = 2
+  MaxLen = 1
+  MaxFaults = 1
   ErrTail = FALSE
   UrlOf <- IdMap
   SlotOf <- IdMap
